@@ -226,7 +226,7 @@ class SeededFault(RuntimeError):
 class SimPipeline:
     """Runs the topology's filters as real `Filter` subclasses (Filter.run) on a simzmq World."""
 
-    def __init__(self, topo: Topo, *, local_clocks=True, poll_ms=100, record=False, work_ms=250, sub_rcvhwm=0):
+    def __init__(self, topo: Topo, *, local_clocks=True, poll_ms=100, record=False, work_ms=250, sub_rcvhwm=0, warn=True):
         Z = load_real()
         from openfilter.filter_runtime import filter as Fm, mq as Mm
         self.Z, self.Fm, self.Mm = Z, Fm, Mm
@@ -247,6 +247,8 @@ class SimPipeline:
         Z.ZMQ_PUSH_HWM = topo.push_hwm
         Z.ZMQ_CONN_HANDSHAKE = topo.handshake
         Z.ZMQ_EXPLICIT_LINGER = 20
+        # the documented switches for the "older / newer message id" warnings change nothing but the log
+        Z.ZMQ_WARN_OLDER = Z.ZMQ_WARN_NEWER = bool(warn)
         self.work_ms = work_ms
         self.filters = {}       # name -> live Filter instance
         self.incs = {f: 0 for f in topo.names}
@@ -318,7 +320,7 @@ class SimPipeline:
                         raise SeededFault(f'{f} ends by an error')
                     self_.exit(f'{f} ends itself')
                 if b['kind'] == 'origin':
-                    if xat >= 0 and run.oseq[f] == xat and run.oseq[f] <= topo.maxseq:
+                    if xat >= 0 and run.oseq[f] == xat and run.oseq[f] <= topo.maxseq and run.incs[f] == 0:
                         end()
                     if run.oseq[f] > topo.maxseq:
                         w.cur.park(('idle',))          # exhausted: never runnable again
@@ -353,7 +355,7 @@ class SimPipeline:
                     return None
                 qs = [v[1] for v in seen.values() if v is not None]
                 if qs and min(qs) in b['skip']:
-                    return None
+                    return (lambda: None) if b['lazy'] else None      # a deferred result that turns out to be nothing
                 ren = dict(b['ren'])
                 out = {}
                 for t in sorted((t for t in seen if not t.startswith('_')), key=lambda x: order.get(ren.get(x, x), 99)):
